@@ -250,8 +250,9 @@ theorem mul_spec (a b : Nat) (ha : canon a) (hb : canon b) :
 /-- raw-word form of addition (right operand canonical; left operand any 64-bit word below `2P - b`) -/
 theorem add_raw (a b : Nat) (ha : canon a) (hb : canon b) : bfe_add a b = (a + b) % Pn := by
   unfold bfe_add canon Pn at *
-  simp only [decide_eq_true_eq]
-  split <;> omega
+  simp only [decide_eq_true_eq, c_simpl]
+  repeat' split
+  all_goals omega
 
 theorem add_ok (a b : Nat) (hb : b ≤ Pn) : bfe_add_ok a b = true := by
   unfold bfe_add_ok; simp only [decide_eq_true_eq]; exact hb
@@ -269,12 +270,16 @@ theorem add_spec (a b : Nat) (ha : canon a) (hb : canon b) :
 theorem sub_raw (a b : Nat) (ha : canon a) (hb : canon b) : bfe_sub a b = (a + Pn - b) % Pn := by
   unfold bfe_sub canon Pn at *
   simp only [decide_eq_true_eq, c_simpl]
-  split <;> omega
+  -- robust against equivalent formulations of the borrow correction (flag multiplication or if/else)
+  repeat' split
+  all_goals omega
 
 theorem sub_ok (a b : Nat) : bfe_sub_ok a b = true := by
   unfold bfe_sub_ok
-  simp only [Bool.and_eq_true, decide_eq_true_eq]
-  exact ⟨by omega, c_bound _⟩
+  first
+    | rfl
+    | (simp only [Bool.and_eq_true, decide_eq_true_eq]; exact ⟨by omega, c_bound _⟩)
+    | (simp only [Bool.and_eq_true, decide_eq_true_eq]; repeat' constructor; all_goals (repeat' split) ; all_goals omega)
 
 /-- subtraction: canonical, and `value (a - b) + value b ≡ value a` -/
 theorem sub_spec (a b : Nat) (ha : canon a) (hb : canon b) :
